@@ -290,6 +290,68 @@ fn main() {
                 rows.push(json!({"kind": "UnqSl", "fact": "clone_shares_allocation", "shares": shares}));
                 std::mem::forget(cs);
             }
+            // a UniqueArc lends no ArcBorrow and mints no Arc while it exists (BorrowApis("Unq") = {} in Triomphe.tla): the
+            // names under which the other handle kinds do so must not resolve to anything of the crate's on a UniqueArc
+            // (the payload has no such methods, so only an inherent method or a crate trait can win over the fallback)
+            {
+                struct Marker;
+                struct Absent;
+                trait NoSuch {
+                    fn borrow_arc(&self) -> Absent {
+                        Absent
+                    }
+                    fn clone_arc(&self) -> Absent {
+                        Absent
+                    }
+                    fn borrow(&self) -> Absent {
+                        Absent
+                    }
+                    fn with_raw_offset_arc<F, U>(&self, _f: F) -> Absent where F: FnOnce(&OffsetArc<Marker>) -> U {
+                        Absent
+                    }
+                }
+                impl NoSuch for UniqueArc<Marker> {}
+                trait Outcome {
+                    fn present(&self) -> bool;
+                }
+                impl Outcome for Absent {
+                    fn present(&self) -> bool {
+                        false
+                    }
+                }
+                impl<'a> Outcome for ArcBorrow<'a, Marker> {
+                    fn present(&self) -> bool {
+                        true
+                    }
+                }
+                impl Outcome for Arc<Marker> {
+                    fn present(&self) -> bool {
+                        true
+                    }
+                }
+                impl<'a> Outcome for &'a Arc<Marker> {
+                    fn present(&self) -> bool {
+                        true
+                    }
+                }
+                impl Outcome for OffsetArc<Marker> {
+                    fn present(&self) -> bool {
+                        true
+                    }
+                }
+                impl Outcome for () {
+                    fn present(&self) -> bool {
+                        true
+                    }
+                }
+                let u = UniqueArc::new(Marker);
+                let (a, b, c) = (u.borrow_arc().present(), u.clone_arc().present(), u.borrow().present());
+                let d = u.with_raw_offset_arc(|_| ()).present();
+                for (api, present) in [("borrow_arc", a), ("clone_arc", b), ("borrow", c), ("with_raw_offset_arc", d)] {
+                    rows.push(json!({"kind": "Unq", "fact": "lends", "api": api, "present": present}));
+                }
+                std::mem::forget(u); // (if something was minted above, do not release twice)
+            }
             dup!("Arc", Arc<String>);
             dup!("Off", OffsetArc<String>);
             dup!("Uni", ArcUnion<String, u8>);
@@ -326,6 +388,12 @@ fn main() {
                 usage();
             }
             overflow::run(&args[1], &args[2]);
+        }
+        "gates" => {
+            if args.len() < 2 {
+                usage();
+            }
+            overflow::gates(&args[1]);
         }
         "inject" => {
             if args.len() < 2 {
